@@ -316,9 +316,11 @@ func deepDump(v interface{}) string {
 			walk(v.Elem(), depth+1)
 			b.WriteString(")")
 		case reflect.Struct:
-			if t, ok := v.Interface().(time.Time); ok {
-				b.WriteString(t.UTC().Format(time.RFC3339Nano))
-				return
+			if v.CanInterface() { // (an unexported field cannot be taken out; it is walked like any struct)
+				if t, ok := v.Interface().(time.Time); ok {
+					b.WriteString(t.UTC().Format(time.RFC3339Nano))
+					return
+				}
 			}
 			b.WriteString("{")
 			for i := 0; i < v.NumField(); i++ {
